@@ -39,12 +39,12 @@ None == [k |-> "none"]
 Err == [k |-> "err"]
 Ok(f, n) == [k |-> "ok", f |-> f, n |-> n]
 
-(* parse_line(data, 1), l.334-346 *)
+(* parse_line(data, 1), l.339-351 *)
 NoLine == [ok |-> FALSE]
 ParseLine(d) ==
-  IF Len(d) < 3 THEN NoLine                                                  \* l.335
-  ELSE LET js == {j \in 2..(Len(d) - 1) : d[j] = CR /\ d[j + 1] = LF}        \* l.339-340
-       IN IF js = {} THEN NoLine                                             \* l.345
+  IF Len(d) < 3 THEN NoLine                                                  \* l.340
+  ELSE LET js == {j \in 2..(Len(d) - 1) : d[j] = CR /\ d[j + 1] = LF}        \* l.344-345
+       IN IF js = {} THEN NoLine                                             \* l.350
           ELSE LET j == MinOf(js) IN [ok |-> TRUE, line |-> Sub(d, 2, j - 1), n |-> j + 1]
 
 (* str::parse::<i64>: optional '+' or '-', at least one digit, value in range *)
@@ -58,8 +58,8 @@ MinusOne == [neg |-> TRUE, d |-> <<1>>]
 
 RECURSIVE ParseFrame(_), ParseItems(_, _, _, _)
 
-(* the loops `for _ in 0..len { match parse_frame(&data[total_consumed..])? {..} }` of parse_array (l.216),
-   parse_set (l.318) and parse_map (l.279, two items per round): off = total_consumed, cnt = items left *)
+(* the loops `for _ in 0..len { match parse_frame(&data[total_consumed..])? {..} }` of parse_array (l.220),
+   parse_set (l.325) and parse_map (l.285, two items per round): off = total_consumed, cnt = items left *)
 ParseItems(d, off, cnt, acc) ==
   IF cnt = 0 THEN [k |-> "ok", fs |-> acc, n |-> off]
   ELSE LET r == ParseFrame(Drop(d, off))
@@ -68,29 +68,29 @@ ParseItems(d, off, cnt, acc) ==
 
 Lined(d, F(_)) == LET l == ParseLine(d) IN IF l.ok THEN F(l) ELSE None
 
-(* parse_simple_string l.132, parse_error l.141 *)
+(* parse_simple_string l.130, parse_error l.139 *)
 ParseText(d, t) == LET F(l) == Ok([t |-> t, v |-> l.line], l.n) IN Lined(d, F)
 
-(* parse_integer l.150 *)
+(* parse_integer l.148 *)
 ParseInteger(d) ==
   LET F(l) == IF RustI64(l.line) THEN Ok([t |-> "int", v |-> BigToBytes(ParseBig(l.line))], l.n) ELSE Err
   IN Lined(d, F)
 
-(* parse_bulk_string l.163-196 *)
+(* parse_bulk_string l.161-194 *)
 ParseBulk(d) ==
   LET F(l) ==
-    IF ~RustI64(l.line) THEN Err                                              \* l.171
+    IF ~RustI64(l.line) THEN Err                                              \* l.169
     ELSE LET big == ParseBig(l.line) IN
-      IF big = MinusOne THEN Ok([t |-> "nil"], l.n)                           \* l.174
-      ELSE IF big.neg THEN Err                                                \* l.178
+      IF big = MinusOne THEN Ok([t |-> "nil"], l.n)                           \* l.172
+      ELSE IF big.neg THEN Err                                                \* l.176
       ELSE LET len == BigToIntClamped(big)
-               total == l.n + len + 2                                         \* l.183
-           IN IF Len(d) < total THEN None                                     \* l.185
-              ELSE IF d[l.n + len + 1] # CR \/ d[l.n + len + 2] # LF THEN Err \* l.190
+               total == l.n + len + 2                                         \* l.181
+           IN IF Len(d) < total THEN None                                     \* l.183
+              ELSE IF d[l.n + len + 1] # CR \/ d[l.n + len + 2] # LF THEN Err \* l.188
               ELSE Ok([t |-> "bulk", v |-> Sub(d, l.n + 1, l.n + len)], total)
   IN Lined(d, F)
 
-(* parse_array l.199-228 *)
+(* parse_array l.197-231 *)
 ParseArray(d) ==
   LET F(l) ==
     IF ~RustI64(l.line) THEN Err
@@ -101,7 +101,7 @@ ParseArray(d) ==
            IN IF r.k = "ok" THEN Ok([t |-> "arr", v |-> r.fs], r.n) ELSE r
   IN Lined(d, F)
 
-(* parse_set l.303-331 *)
+(* parse_set l.311-336 *)
 ParseSet(d) ==
   LET F(l) ==
     IF ~RustUsize(l.line) THEN Err
@@ -109,7 +109,7 @@ ParseSet(d) ==
          IN IF r.k = "ok" THEN Ok([t |-> "set3", v |-> r.fs], r.n) ELSE r
   IN Lined(d, F)
 
-(* parse_map l.264-300 *)
+(* parse_map l.271-308 *)
 ParseMap(d) ==
   LET F(l) ==
     IF ~RustUsize(l.line) THEN Err
@@ -120,25 +120,25 @@ ParseMap(d) ==
             ELSE r
   IN Lined(d, F)
 
-(* parse_null l.231-240 *)
+(* parse_null l.234-243 *)
 ParseNull(d) ==
   IF Len(d) < 3 THEN None
   ELSE IF d[2] = CR /\ d[3] = LF THEN Ok([t |-> "null3"], 3) ELSE Err
 
-(* parse_boolean l.243-252 *)
+(* parse_boolean l.246-255 *)
 ParseBool(d) ==
   IF Len(d) < 4 THEN None
   ELSE IF d[3] = CR /\ d[4] = LF /\ d[2] \in {116, 102}
        THEN Ok([t |-> "bool", v |-> IF d[2] = 116 THEN 1 ELSE 0], 4) ELSE Err
 
-(* parse_double l.255-261 *)
+(* parse_double l.258-268 *)
 F64Of(t) ==
   LET es == {e \in DblTab : t = e[2] \/ t \in e[3]}
   IN IF es # {} THEN [t |-> "dbl", v |-> (CHOOSE e \in es : TRUE)[1]] ELSE [t |-> "dbltext", v |-> t]
 ParseDouble(d) ==
   LET F(l) == IF IsF64Text(l.line) THEN Ok(F64Of(l.line), l.n) ELSE Err IN Lined(d, F)
 
-(* parse_frame l.107-129 *)
+(* parse_frame l.107-127 *)
 ParseFrame(d) ==
   IF d = <<>> THEN None
   ELSE LET c == d[1] IN
@@ -173,8 +173,8 @@ Parse1(b) ==
      ELSE IF Len(r) >= 4 /\ Sub(r, 1, 4) = PING                               \* l.51-52
      THEN Ok(PingFrame, p + 4 + Lead(Drop(r, 4), {SP, CR, LF}))               \* l.54-62
      ELSE IF FixedPing /\ IsProperPrefix(r, PING) THEN None                   \* the repair
-     ELSE LET x == ParseFrame(r) IN                                           \* l.72
-          IF x.k = "ok" THEN Ok(x.f, p + x.n + Lead(Drop(r, x.n), {CR, LF}))  \* l.74-81
+     ELSE LET x == ParseFrame(r) IN                                           \* l.71
+          IF x.k = "ok" THEN Ok(x.f, p + x.n + Lead(Drop(r, x.n), {CR, LF}))  \* l.73-81
           ELSE x
 
 (* what a connection observes for the unconsumed bytes b: parse until none / err *)
